@@ -776,7 +776,14 @@ func (p *Program) roleT(key string) types.Type {
 func (p *Program) roleFunc(key string) *ssa.Function {
 	i := strings.LastIndex(key, ".")
 	rel, name := key[:i], key[i+1:]
-	if f := p.Func(rel, name); f != nil {
+	if strings.HasPrefix(key, "smf.writer.") {
+		rel = "smf"
+		if w := p.roleT("smf.writer"); w != nil {
+			if f := p.MethodOf(types.NewPointer(w), name); f != nil {
+				return f
+			}
+		}
+	} else if f := p.Func(rel, name); f != nil {
 		return f
 	}
 	sp := p.Pkg(rel)
@@ -785,6 +792,41 @@ func (p *Program) roleFunc(key string) *ssa.Function {
 	}
 	var got []*ssa.Function
 	switch key {
+	case "smf.writer.SetDelta", "smf.writer.Write":
+		// the methods of the writer that WriteTo calls per event: the one handed the event's Delta, the one handed its Message
+		field := "Delta"
+		if name == "Write" {
+			field = "Message"
+		}
+		w := p.roleType("smf.writer")
+		wt := p.Method("smf", "SMF", "WriteTo")
+		if w == nil || wt == nil {
+			return nil
+		}
+		seen := map[*ssa.Function]bool{}
+		for _, c := range calls(wt) {
+			cal := c.Common().StaticCallee()
+			if cal == nil || cal.Signature.Recv() == nil || namedOf(cal.Signature.Recv().Type()) != w || seen[cal] {
+				continue
+			}
+			for _, a := range c.Common().Args[1:] {
+				var fv *types.Var
+				switch x := a.(type) {
+				case *ssa.UnOp:
+					fv = fieldVar(x.X)
+				case *ssa.Field:
+					fv = fieldVar(x)
+				}
+				if fv != nil && fv.Name() == field && fv.Exported() {
+					seen[cal] = true
+					got = append(got, cal)
+				}
+			}
+		}
+		if len(got) == 1 {
+			return got[0]
+		}
+		return nil
 	case "smf.newWriter": // the constructor of the SMF writer: package-level function returning *writer
 		w := p.roleType("smf.writer")
 		if w == nil {
@@ -821,4 +863,12 @@ func (p *Program) logicalTypeName(t types.Type) string {
 		}
 	}
 	return n.Obj().Name()
+}
+
+func namedOf(t types.Type) *types.Named {
+	if pt, ok := t.(*types.Pointer); ok {
+		t = pt.Elem()
+	}
+	n, _ := t.(*types.Named)
+	return n
 }
